@@ -5140,6 +5140,7 @@ class DecRule:
                                     self.model.sup_model.vars[-1].last),
                                    dtype=int)
 
+        self._pad_depend()
         indices = rvar.get_ind()
         if ldr_indices is None:
             ldr_indices = np.arange(self.depend.shape[0], dtype=int)
@@ -5154,12 +5155,21 @@ class DecRule:
 
         self.depend[ldr_indices, indices] = 1
 
+    def _pad_depend(self):
+
+        num_rand = self.model.sup_model.vars[-1].last
+        if self.depend is not None and self.depend.shape[1] < num_rand:
+            extra = np.zeros((self.size, num_rand - self.depend.shape[1]),
+                             dtype=int)
+            self.depend = np.hstack((self.depend, extra))
+
     def to_affine(self):
 
         if self.roaffine is not None:
             return self.roaffine
         else:
             if self.depend is not None:
+                self._pad_depend()
                 num_ones = self.depend.sum()
                 var_coeff = self.model.dvar(num_ones)
                 self.var_coeff = var_coeff
